@@ -72,9 +72,9 @@ def c01_programs(tier, seed, rnd):
         c = dict(alpha)
         c["MaxNodes"] = n
         c["SigsName"] = "none"
-        rs, res = gen.run_builder(c, "c01_" + name, workers=8, timeout=1500)
+        rs, res = gen.run_builder(c, "c01_" + name, workers=8, timeout=1500, cap=cap, rnd=rnd)
         results.append(res)
-        for p in sample(rs, cap, rnd):
+        for p in rs:
             progs.append(with_vars(finalize(p), c))
     return progs, results
 
@@ -97,7 +97,7 @@ def nontrivial(text_entry):
     return any(ins["op"] in CTRL_OPS for ins in text_entry["teal"])
 
 
-def judge_refinement(chk, prop, entries, metas, verdicts, classify=None):
+def judge_refinement(chk, prop, entries, metas, verdicts, classify=None, ghost=False):
     """verdict fields: tid cid k clause want got ghost steps frames exits"""
     nontriv = set()
     incon = 0
@@ -110,6 +110,8 @@ def judge_refinement(chk, prop, entries, metas, verdicts, classify=None):
             continue
         if nontrivial(te):
             nontriv.add(pipeline_key(te))
+        if clause == "ok" and ghost and v[6]:
+            clause = "ghost:" + v[6].split(",")[0].split(":")[0]
         if clause != "ok":
             key = None
             if classify:
@@ -227,9 +229,9 @@ def c20_programs(tier, seed, rnd):
         c = dict(alpha)
         c["MaxNodes"] = n
         c["SigsName"] = "none"
-        rs, res = gen.run_builder(c, "c20_" + name, workers=8, timeout=1500)
+        rs, res = gen.run_builder(c, "c20_" + name, workers=8, timeout=1500, cap=cap, rnd=rnd)
         results.append(res)
-        for p in sample(rs, cap, rnd):
+        for p in rs:
             progs.append(with_vars(finalize(p), c))
     progs += big_programs(tier)
     return progs, results
@@ -254,11 +256,63 @@ def c17_programs(tier, seed, rnd):
         c = dict(alpha)
         c["MaxNodes"] = n
         c["SigsName"] = "none"
-        rs, res = gen.run_builder(c, "c17_" + name, workers=8, timeout=1500)
+        rs, res = gen.run_builder(c, "c17_" + name, workers=8, timeout=1500, cap=cap, rnd=rnd)
         results.append(res)
-        for p in sample(rs, cap, rnd):
+        for p in rs:
             progs.append(with_vars(finalize(p), c))
     # the same programs with explicitly requested slot ids for every variable (every third recipe)
     import outcomes
     progs += [outcomes.with_requested_ids(p) for p in progs[::3]]
+    return progs, results
+
+
+# ---------------------------------------------------------------------------------------------
+# C02 / C03 streams: routines
+A_ROUT = dict(Leaves=["i1", "au0"], UnOps=[], BinOps=["-", "+"], Stmts=["Pop", "Store", "Return", "LogU"],
+              Ctrl=["Seq2", "If2", "VSeq", "VIf"], NVarsU=1, NVarsB=0, NLocals=1)
+A_ROUT_SMALL = dict(Leaves=["i1", "au0"], UnOps=[], BinOps=["-"], Stmts=["Store", "Return", "LogU"],
+                    Ctrl=["Seq2", "VSeq"], NVarsU=0, NVarsB=0, NLocals=1)
+A_REF = dict(Leaves=["i1", "au0"], UnOps=[], BinOps=[], Stmts=["Store"], Ctrl=["Seq2", "VSeq"], NVarsU=1, NVarsB=0, NLocals=0)
+# (catalogue entry, alphabet, node budget quick, node budget thorough)
+SIG_PLANS = [("g_u1", A_ROUT, 6, 8), ("g_u2", A_ROUT, 6, 8), ("g_n1", A_ROUT, 6, 8), ("g_u1_n1", A_ROUT_SMALL, 7, 9),
+             ("g_n2_u1", A_ROUT_SMALL, 7, 9), ("g_u1_u2", A_ROUT_SMALL, 7, 8), ("g_nr", A_ROUT, 6, 8), ("g_ur", A_ROUT, 6, 8),
+             ("g_nr_u1", A_ROUT_SMALL, 7, 9), ("g_nrv", A_REF, 9, 10), ("g_nr_nr", A_REF, 9, 10), ("g_nrv_nr", A_REF, 9, 10)]
+SIG_PLANS_THOROUGH_ONLY = [("g_u3", A_ROUT, 0, 7), ("g_n2", A_ROUT, 0, 8), ("g_b1", A_ROUT, 0, 8), ("g_u2_b1", A_ROUT_SMALL, 0, 9),
+                           ("g_u3_n1", A_ROUT_SMALL, 0, 9), ("g_n1_n1_u1", A_ROUT_SMALL, 0, 10), ("g_urv", A_REF, 0, 10)]
+
+
+def c02_settings(prog):
+    out = []
+    for v in range(4, 11):
+        out.append({"v": v})
+        if v >= 8:
+            out.append({"v": v, "fp": False})
+        if v in (5, 8, 9):
+            out.append({"v": v, "ss": (v < 9)})
+            if v >= 8:
+                out.append({"v": v, "ss": (v < 9), "fp": False})
+    return out
+
+
+def c02_programs(tier, seed, rnd, alpha=None):
+    from concurrent.futures import ThreadPoolExecutor
+    q = tier == "quick"
+    plans = SIG_PLANS if q else SIG_PLANS + SIG_PLANS_THOROUGH_ONLY
+
+    def one(plan):
+        sg, al, nq, nt = plan
+        c = dict(alpha or al)
+        c["MaxNodes"] = nq if q else nt
+        c["SigsName"] = sg
+        rs, res = gen.run_builder(c, "c02_" + sg, workers=4, timeout=1500, main_calls=True,
+                                  cap=(6000 if al is A_REF else 400) if q else 8000, rnd=random.Random(seed))
+        return sg, c, rs, res
+
+    progs, results = [], []
+    with ThreadPoolExecutor(max_workers=4) as ex:
+        outs = list(ex.map(one, plans))
+    for sg, c, rs, res in outs:
+        results.append(res)
+        for p in rs:
+            progs.append(with_vars(finalize(p), c))
     return progs, results
